@@ -259,6 +259,7 @@ func nestedRound(h *H, root, flatRoot *spec, back map[*spec]*flatState) {
 	h.finish(a1, e1)
 	// (2): the flattened machine, same answers
 	h2 := newH(flatRoot)
+	h2.maxCalls = h.maxCalls // the flattened run is as long as the nested one (long loops)
 	h2.menu = func(hh *H, c call) []answer {
 		i := len(hh.answers)
 		if i >= len(h.answers) {
